@@ -4,6 +4,7 @@ Correspondence: real `calculate_viability_and_necessity` vs the Lean model
 from __future__ import annotations
 import copy, itertools, json, random, sys
 from ..common import Result, Violation, run_driver, canon_hash
+from .. import genexec
 from ..agbuild import build_graph, gate_of, ttc_fields, opposite_kind, TTC_KINDS, DIST_KINDS, PLAIN_KINDS
 
 ASSUMPTIONS = [
@@ -401,7 +402,11 @@ def run(seed, tier, lean) -> Result:
             perm_of[len(cases)] = (b, perm); cases.append(pn)
     res.bump('permuted', len(cases) - base_n)
     have_driver = lean['build_ok']
-    model = run_driver([payload(n, i, labels0_of(n)) for i, n in enumerate(cases)]) if have_driver else None
+    model = gen = None
+    if have_driver:
+        # third column: the GENERATED `calculate_viability_and_necessity` (Py/Gen/Apriori.lean) on the same graphs
+        model, gen = genexec.run_both([payload(n, i, labels0_of(n)) for i, n in enumerate(cases)], 'gen_apriori')
+    gen_reported = False
     impl_out = []
     for i, nodes in enumerate(cases):
         im = impl(nodes); impl_out.append(im)
@@ -415,6 +420,13 @@ def run(seed, tier, lean) -> Result:
         if any('ttc0' in n for n in nodes): res.bump('ttc_assigned_after_construction')
         if labels0_of(nodes): res.bump('preset_labels')
         d = compare(nodes, im, mo)
+        if gen is not None and not d and not gen_reported:
+            go = gen[i].get('model') or {'error': gen[i].get('error')}
+            res.bump('generated_code_graphs_compared')
+            if 'error' not in im and ('error' in go or compare(nodes, im, go)):
+                gen_reported = True
+                res.violations.append(genexec.divergence('C08', 'calculate_viability_and_necessity', f'on the labels of a {len(nodes)}-node graph',
+                                                         {'nodes': nodes, 'impl': im, 'generated': go, 'hand_model': mo}))
         if d:
             def failing(ns):
                 i2 = impl(ns); return 'error' in i2 or any(i2[k] != oracle(ns)[k] for k in ('viable', 'necessary'))
